@@ -1058,7 +1058,7 @@ class Interp:
         rsize = z3.BitVec("call_retsize" + k, 256)
         rdata = z3.Array("call_retdata" + k, W, Mx.B8)
         value = BV(0) if static else kws.get("value", BV(0))
-        ev = ("staticcall" if static else "call", ("requested-gas", kws["gas"]) if "gas" in kws else None, to, value, payload)
+        ev = ("staticcall" if static else "call", ("requested-gas", kws["gas"]) if "gas" in kws else None, to, value, payload, {"storage": st.storage, "transient": st.transient, "pc": st.pc})
         st = st.copy(trace=st.trace + (ev,), ncalls=st.ncalls + 1)
         fact_rs = z3.ULT(rsize, BV(Mx.ENV_SIZE_BOUND))  # return data is bounded like memory (environment assumption shared with the bytecode denotation)
         if not any(fact_rs.eq(x) for x in env.assumptions):
